@@ -50,11 +50,16 @@ def run_lift_error(task):
 
 def run_task(task):
     if task.get('kind') == 'lift-error': return run_lift_error(task)
+    if task.get('kind') == 'parsefile':
+        from . import parsefile_h
+        r = parsefile_h.run_task(task)
+        r['violations'] = [v for v in r['violations'] if v['kind'] in ('silent-parse-error', 'panic')]
+        return r
     if task.get('kind') == 'version': return run_version(task)
     if task.get('kind') == 'filestack':
         from . import C19
         r = C19.run_task(task['t'])
-        r['violations'] = [v for v in r.get('violations', []) if v['kind'] == 'input-dropped']
+        r['violations'] = [v for v in r.get('violations', []) if v['kind'] in ('input-dropped', 'multiple-main')]
         return r
     return C03.run_task(task)
 
@@ -109,7 +114,9 @@ def main(tier, replay=None):
     def tasks(tier, prop='C02'):
         return [{'kind': 'version', 'pragma': True, 'prop': 'C02'}, {'kind': 'version', 'pragma': False, 'prop': 'C02'},
                 {'kind': 'filestack', 't': {'part': 'new', 'n': 1}, 'prop': 'C02'}, {'kind': 'filestack', 't': {'part': 'new', 'n': 2}, 'prop': 'C02'},
-                {'kind': 'lift-error', 'enum': 'CFGError', 'prop': 'C02'}, {'kind': 'lift-error', 'enum': 'SSAError', 'prop': 'C02'}] + orig_tasks('quick', prop) + \
+                {'kind': 'filestack', 't': {'part': 'walk', 'n': 1, 'libs': 'none', 'first': 0, 'n0': 1, 't0': 1, 'mains': True, 'tier': 'quick'}, 'prop': 'C02'},
+                {'kind': 'lift-error', 'enum': 'CFGError', 'prop': 'C02'},
+                {'kind': 'parsefile', 'n': 2, 'outcome': 'InvalidToken', 'prop': 'C02'}, {'kind': 'parsefile', 'n': 2, 'outcome': 'UnrecognizedToken', 'prop': 'C02'}, {'kind': 'parsefile', 'n': 2, 'outcome': 'UnrecognizedEOF', 'prop': 'C02'}, {'kind': 'lift-error', 'enum': 'SSAError', 'prop': 'C02'}] + [t for t in orig_tasks('quick', prop) if t['kind'] != 'main' or 0 in t['codes']] + \
                ([t for t in orig_tasks('thorough', prop) if t['kind'] == 'main' and t['allow'] == 0 and sorted(t['codes']) == t['codes'] and t['codes'][0] == 0] if tier == 'thorough' else [])
     c3.tasks = tasks
     orig_scen = c3.scenario_of
@@ -117,14 +124,16 @@ def main(tier, replay=None):
     def scenario_of(t, v):
         if t.get('kind') == 'version':
             m = v['model']; return {'kind': 'version', 'req': [m.get('maj', 0), m.get('min', 0), m.get('pat', 0)] if t['pragma'] else None}
+        if t.get('kind') == 'filestack' and t['t'].get('mains'): return {'kind': 'multiple-main', 'model': v['model']}
         if t.get('kind') == 'filestack': return {'kind': 'missing-input', 'n': t['t']['n']}
+        if t.get('kind') == 'parsefile': return {'kind': 'lift-error', 'enum': 'ParsingError', 'variant': 'parse-error-' + t['outcome']}
         if t.get('kind') == 'lift-error': return {'kind': 'lift-error', 'enum': t['enum'], 'variant': (v.get('extra') or {}).get('variant')}
         return orig_scen(t, v)
     c3.scenario_of = scenario_of
     orig_is = c3.is_c02_violation
-    c3.is_c02_violation = lambda sc, v: True if sc.get('kind') in ('version', 'missing-input', 'lift-error') else orig_is(sc, v)
+    c3.is_c02_violation = lambda sc, v: True if sc.get('kind') in ('version', 'missing-input', 'lift-error', 'multiple-main') else orig_is(sc, v)
     orig_role = c3.role_of
-    c3.role_of = lambda sc, v, prop: {'function': 'check_compiler_version', 'kind': v['kind'], 'class': 'any'} if sc.get('kind') == 'version' else ({'function': '%s::into_report' % sc['enum'], 'kind': v['kind'], 'class': str(sc.get('variant'))} if sc.get('kind') == 'lift-error' else ({'function': 'FileStack::new', 'kind': v['kind'], 'class': 'missing-input'} if sc.get('kind') == 'missing-input' else orig_role(sc, v, prop)))
+    c3.role_of = lambda sc, v, prop: {'function': 'check_compiler_version', 'kind': v['kind'], 'class': 'any'} if sc.get('kind') == 'version' else ({'function': '%s::into_report' % sc['enum'], 'kind': v['kind'], 'class': str(sc.get('variant'))} if sc.get('kind') == 'lift-error' else {'function': 'parse_files', 'kind': v['kind'], 'class': 'multiple-main'} if sc.get('kind') == 'multiple-main' else ({'function': 'FileStack::new', 'kind': v['kind'], 'class': 'missing-input'} if sc.get('kind') == 'missing-input' else orig_role(sc, v, prop)))
     # route this module's run_task through the shared pool
     orig_run = common.run_tasks
     common_run = lambda mod, ts, **kw: orig_run('specs.C02', ts, **kw)
